@@ -251,6 +251,71 @@ Qed.
 Theorem roll_window_contents xs o start sI : o < d ->
   nth o (snd (snd (lsteps V RL (l0 RL) xs))) None = Some (start, sI) -> sI = st_of (skipn start xs).
 Proof. intros Ho E. destruct (ring_ok_run xs) as (_ & _ & _ & Hin). eapply Hin; eauto. Qed.
+
+(* what is emitted while item x is consumed after the items pre (n = length pre): for every ring slot o, in
+   slot order, whose window (after a possible opening at this item) started at st: what a FRESH inner machine
+   that received the items since st emits on x, followed by its completion output if x is its w-th item *)
+Definition slot_out (pre : list V) (x : V) (o : nat) : list V :=
+  match open_step s d (length pre) (after w s d (length pre)) o with
+  | Some st => let r := lnext LI (st_of (skipn st pre)) x in
+               snd r ++ (if RingProofs.closes w (length pre) st then ldone LI (fst r) else [])
+  | None => []
+  end.
+Lemma flat_map_nth {A B} (f : A -> list B) (dflt : A) : forall (l : list A),
+  flat_map f l = flat_map (fun o => f (nth o l dflt)) (seq 0 (length l)).
+Proof.
+  induction l as [|a l IH]; [reflexivity|]. cbn [length seq flat_map nth]. f_equal.
+  rewrite IH, <- seq_shift, flat_map_map. reflexivity.
+Qed.
+Theorem roll_step_out pre x :
+  snd (lnext RL (snd (lsteps V RL (l0 RL) pre)) x) = flat_map (slot_out pre x) (seq 0 d).
+Proof.
+  pose proof (ring_ok_run pre) as (Hn & Hlen & Hst & Hin).
+  destruct (snd (lsteps V RL (l0 RL) pre)) as [n cells]. cbn [fst snd] in *. subst n.
+  cbn [lnext roll_l snd]. set (n := length pre).
+  set (cells1 := if n mod s =? 0 then set_nth ((n / s) mod d) (Some (n, l0 LI)) None cells else cells).
+  assert (Hlen1 : length cells1 = d).
+  { unfold cells1. destruct (n mod s =? 0); auto.
+    rewrite set_nth_length; [exact Hlen|]. unfold Sim.lcell in *. rewrite Hlen. apply Nat.mod_upper_bound. lia. }
+  assert (Hn1 : forall o, o < d -> @nth lcell o cells1 None =
+              if (n mod s =? 0) && (o =? (n / s) mod d) then Some (n, l0 LI) else @nth lcell o cells None).
+  { intros o Ho. unfold cells1. destruct (n mod s =? 0); cbn [andb]; auto.
+    destruct (o =? (n / s) mod d) eqn:Eo.
+    - apply Nat.eqb_eq in Eo. subst o. apply nth_set_nth_same.
+    - apply Nat.eqb_neq in Eo. apply nth_set_nth_other. congruence. }
+  unfold Sim.lcell in *.
+  rewrite flat_map_concat_map, map_map, <- flat_map_concat_map.
+  rewrite (flat_map_nth _ None cells1). rewrite Hlen1.
+  apply flat_map_ext_in. intros o Ho. apply in_seq in Ho. assert (Ho' : o < d) by lia.
+  unfold slot_out. fold n. rewrite (Hn1 o Ho'). unfold open_step.
+  destruct (n mod s =? 0) eqn:Eop; cbn [andb].
+  - destruct (o =? (n / s) mod d) eqn:Eo.
+    + cbn [lcell_step]. replace (skipn n pre) with (@nil V) by (unfold n; now rewrite skipn_all). change (st_of []) with (l0 LI).
+      destruct (lnext LI (l0 LI) x) as [s1 out]. unfold RingProofs.closes, Sim.closes. cbn [fst snd].
+      destruct (n - n + 1 =? w); cbn [fst snd]; rewrite ?app_nil_r; reflexivity.
+    + specialize (Hst o Ho'). unfold starts in Hst. fold n in Hst. rewrite <- Hst. unfold Sim.lcell.
+      destruct (nth o cells None) as [[st0 sI]|] eqn:Ec; cbn [option_map fst snd lcell_step]; [|reflexivity].
+      rewrite (Hin o st0 sI Ho' Ec). destruct (lnext LI (st_of (skipn st0 pre)) x) as [s1 out].
+      unfold RingProofs.closes, Sim.closes. cbn [fst snd]. destruct (n - st0 + 1 =? w); cbn [fst snd]; rewrite ?app_nil_r; reflexivity.
+  - specialize (Hst o Ho'). unfold starts in Hst. fold n in Hst. rewrite <- Hst. unfold Sim.lcell.
+    destruct (nth o cells None) as [[st0 sI]|] eqn:Ec; cbn [option_map fst snd lcell_step]; [|reflexivity].
+    rewrite (Hin o st0 sI Ho' Ec). destruct (lnext LI (st_of (skipn st0 pre)) x) as [s1 out].
+    unfold RingProofs.closes, Sim.closes. cbn [fst snd]. destruct (n - st0 + 1 =? w); cbn [fst snd]; rewrite ?app_nil_r; reflexivity.
+Qed.
+(* at completion: the open windows, in the flush order rot (= opening order, see flush_position), each emit
+   the completion output of a fresh inner machine fed with the items since their start *)
+Theorem roll_done_out xs :
+  snd (ltimed V RL xs)
+  = flat_map (fun o => match after w s d (length xs) o with Some st => ldone LI (st_of (skipn st xs)) | None => [] end)
+             (rot s d (length xs)).
+Proof.
+  unfold ltimed. pose proof (ring_ok_run xs) as (Hn & Hlen & Hst & Hin).
+  destruct (lsteps V RL (l0 RL) xs) as [os [n cells]]. cbn [fst snd] in *. subst n.
+  cbn [ldone roll_l]. apply flat_map_ext_in. intros o Ho. apply (rot_lt w s d Hs Hd Hd1) in Ho.
+  specialize (Hst o Ho). unfold starts in Hst. rewrite <- Hst. unfold Sim.lcell in *.
+  destruct (nth o cells None) as [[st0 sI]|] eqn:Ec; cbn [option_map fst]; [|reflexivity].
+  now rewrite (Hin o st0 sI Ho Ec).
+Qed.
 End RollL.
 
 (* ---------------------------------------------------------------------------------------------
